@@ -39,7 +39,11 @@ def gen(rng, tier):
                     data[i][j] = [rng.randint(0, 1), rng.randint(0, 1)]
         haps = []
         for h in range(rng.randint(1, 3)):
-            idx = sorted(rng.sample(range(nv), rng.randint(1, min(3, nv))))
+            # V lines in genotype order or in any other order (a .hap file need not be sorted); sometimes one haplotype
+            # spans every variant that will be loaded
+            idx = rng.sample(range(nv), nv if rng.random() < 0.3 else rng.randint(1, min(3, nv)))
+            if rng.random() < 0.5:
+                idx.sort()
             haps.append({"id": f"H{h}", "vars": [[f"v{j}", rng.choice(["A", "C"])] for j in idx]})
         target_is_hap = rng.random() < 0.5
         target = rng.choice(haps)["id"] if target_is_hap else f"v{rng.randrange(nv)}"
@@ -48,6 +52,12 @@ def gen(rng, tier):
         if rng.random() < 0.5:
             pool = [f"v{j}" for j in range(nv)] if from_gts else [h["id"] for h in haps]
             ids = [rng.choice(pool) for _ in range(rng.randint(1, len(pool) + 1))]  # duplicates allowed
+            if rng.random() < 0.3:
+                # unknown IDs; with a haplotype target and --from-gts sometimes exactly as many as the target has unrequested variants
+                tv = next((h["vars"] for h in haps if h["id"] == target), [])
+                k_un = len([v for v, _ in tv if v not in ids]) if (from_gts and rng.random() < 0.6) else rng.randint(1, 2)
+                for u in range(k_un):
+                    ids.insert(rng.randrange(len(ids) + 1), f"unknown{u}")
         yield {"data": data, "haps": haps, "target": target, "from_gts": from_gts, "ids": ids, "pgen": rng.random() < 0.3, "samples": rng.choice([None, None, "subset"]), "seed": rng.randrange(2**31), "repeat": rng.random() < 0.4}
 
 
@@ -172,7 +182,7 @@ def oracle(case, obs):
         if case["ids"] is None:
             want = allv
         elif tgt_hap:
-            want = list(dict.fromkeys(case["ids"]))
+            want = [v for v in dict.fromkeys(case["ids"]) if v in allv]  # unknown IDs are ignored, never replaced
         else:
             want = [v for v in allv if v in case["ids"] or v == case["target"]]
         if sorted(listed) != sorted(want):
@@ -197,7 +207,7 @@ def oracle(case, obs):
 
 def describe(case, obs):
     tgt_hap = any(h["id"] == case["target"] for h in case["haps"])
-    return [("hap-target" if tgt_hap else "variant-target"), ("from-gts" if case["from_gts"] else "hap-output"), ("ids" if case["ids"] is not None else "no-ids"), ("pgen" if case["pgen"] else "vcf"), ("dup-ids" if case["ids"] and len(set(case["ids"])) < len(case["ids"]) else "uniq-ids"), ("sample-subset" if case["samples"] else "all-samples")]
+    return [("hap-target" if tgt_hap else "variant-target"), ("from-gts" if case["from_gts"] else "hap-output"), ("ids" if case["ids"] is not None else "no-ids"), ("pgen" if case["pgen"] else "vcf"), ("dup-ids" if case["ids"] and len(set(case["ids"])) < len(case["ids"]) else "uniq-ids"), ("sample-subset" if case["samples"] else "all-samples"), ("some-haplotype-unsorted" if any([int(v[0][1:]) for v in h["vars"]] != sorted(int(v[0][1:]) for v in h["vars"]) for h in case["haps"]) else "haplotypes-sorted")]
 
 
 # ------------------------------------------------------------------ pearson_corr_ld kernel, incl. biobank-size cohorts
